@@ -162,6 +162,7 @@ func (e *Exec) applyContractFull(con *Contract, fn *ssa.Function, sig *types.Sig
 		cenv := &Env{e: e, vars: cv, st: pre, old: e.entry, pkgPath: e.Con.PkgPath, lookup: e.localEnv(pre)}
 		t := e.evalSpecBool(cenv, ac.Clause.Expr, e.Con, "atcall")
 		e.oblige("atcall", ac.Clause.Label+"@"+short+caseLabel, ac.Clause.Text, ac.Clause.Props, "", t)
+		e.assume(t) // assert-then-assume: later obligations may use it as a lemma
 	}
 	if con.Fatal {
 		e.oblige("nofatal", short+caseLabel, "call of "+short+" (terminates the process abnormally)", nil, "", "false")
@@ -353,6 +354,41 @@ func (e *Exec) implementations(iface types.Type, method *types.Func) []implInfo 
 	return out
 }
 
+// implTypes lists the module's dynamic types implementing an interface.
+func (e *Exec) implTypes(iface types.Type) []types.Type {
+	it := iface.Underlying().(*types.Interface)
+	var out []types.Type
+	var pkgs []string
+	for path := range e.P.ByPkg {
+		if strings.HasPrefix(path, repoModule) {
+			pkgs = append(pkgs, path)
+		}
+	}
+	sort.Strings(pkgs)
+	for _, path := range pkgs {
+		sp := e.P.ByPkg[path]
+		for _, n := range sp.Pkg.Scope().Names() {
+			tn, ok := sp.Pkg.Scope().Lookup(n).(*types.TypeName)
+			if !ok || tn.IsAlias() || isInterface(tn.Type()) {
+				continue
+			}
+			if nt, ok := tn.Type().(*types.Named); ok && nt.TypeParams().Len() > 0 {
+				continue
+			}
+			for _, dyn := range []types.Type{tn.Type(), types.NewPointer(tn.Type())} {
+				if types.Implements(dyn, it) {
+					// a value type implementing the interface is listed once (as T); *T only if T does not
+					if _, isPtr := dyn.(*types.Pointer); isPtr && types.Implements(tn.Type(), it) {
+						continue
+					}
+					out = append(out, dyn)
+				}
+			}
+		}
+	}
+	return out
+}
+
 func (e *Exec) invoke(c *ssa.CallCommon, recv Value, args []Value, guard string) Value {
 	s := e.st
 	it := c.Value.Type()
@@ -414,7 +450,9 @@ func (e *Exec) invoke(c *ssa.CallCommon, recv Value, args []Value, guard string)
 		results = append(results, r)
 		conds = append(conds, cond)
 	}
-	return mergeValues(conds, results)
+	m := mergeValues(conds, results)
+	e.nameSlots(&m, "dyn")
+	return m
 }
 
 func mergeValues(conds []string, vals []Value) Value {
@@ -628,4 +666,23 @@ func (e *Exec) selectInstr(ins *ssa.Select) {
 		}
 	}
 	e.vals[ins] = Value{T: ins.Type(), Tup: tup}
+}
+
+// nameSlots gives compound slot terms short names (keeps later terms small).
+func (e *Exec) nameSlots(v *Value, prefix string) {
+	if v.Tup != nil {
+		for i := range v.Tup {
+			e.nameSlots(&v.Tup[i], prefix)
+		}
+		return
+	}
+	if v.T == nil || v.S == nil {
+		return
+	}
+	sl := slotsOf(v.T)
+	for i := range v.S {
+		if strings.HasPrefix(v.S[i], "(ite") && i < len(sl) {
+			v.S[i] = e.define(prefix, sl[i].Sort, v.S[i])
+		}
+	}
 }
